@@ -109,7 +109,10 @@ FullNext ==
           \/ \E c \in Clients, w \in DOMAIN wl : wl[w].commit \notin withdrawn /\ ProcessWelcome(c, w, w \o "x1") /\ UNCHANGED held
           \/ \E c \in Clients, w \in DOMAIN wl : wl[w].commit \notin withdrawn /\ AcceptWelcome(c, w) /\ Track
           \/ \E c \in Clients, w \in DOMAIN wl : wl[w].commit \notin withdrawn /\ DeclineWelcome(c, w) /\ UNCHANGED held
+          \/ \E c \in Clients, w \in DOMAIN wl : DropKeyPackage(c, w) /\ UNCHANGED held
+          \/ \E c \in Clients, w \in DOMAIN wl : WelcomeCallFails(c, w) /\ UNCHANGED held
           \/ \E c \in Sql : Restart(c) /\ UNCHANGED held
+          \/ \E c \in Sql : RestartT(c, 0, 1) /\ UNCHANGED held        \* start-up with every stored snapshot past its TTL
           \/ Quiescent /\ ~hist.q /\ Quiesce /\ UNCHANGED held
 
 FullSpec == MCInit /\ [][FullNext]_mcvars
